@@ -28,9 +28,9 @@ ASSUMPTIONS = ["theorems are stated for the algebraic skeleton over Mathlib matr
                "Matrix::Inverse (property C05) is a parameter of the Rayleigh model"]
 TRUSTED = ["numpy.linalg.cond (2-norm condition number) only to scale the class-B tolerance of Q and R"]
 
-K_QR = 64          # x eps x kappa   (entries of Q; entries of R additionally x max|M|)
+K_QR = 32          # x eps x kappa   (entries of Q; entries of R additionally x max|M|)
 K_ORA = 64         # x eps x n       (backward-stable residuals ‖QR−M‖/‖M‖ and ‖QᵀQ−1‖)
-K_EIG = 4096       # x eps x max|lambda|: absolute accuracy of each eigenvalue
+K_EIG = 1024       # x eps x max|lambda|: absolute accuracy of each eigenvalue
 RES_TOL = 1e-8     # ‖Mv−λv‖ / ‖M‖ for eigenpairs (the loop's own tolerance is 1e-10 on the components)
 
 
@@ -225,17 +225,19 @@ def generate(tier, seed, ctx):
     for n in range(1, 5):                               # singular: a zero column is met (NaN in the C++, not modelled)
         R.append(req_matrix("c15.qr", [[0.0] * n for _ in range(n)]))
     R.append(req_matrix("c15.qr", [[1.0, 2.0], [2.0, 4.0]]))
-    for k in range(500 if thorough else 70):
+    for k in range(500 if thorough else 50):
         M, lam, fam = sym_matrix(rng, k)
-        R.append(req_matrix("c15.eigenvalues", M)); meta[R[-1]] = ("eig", fam, lam)
+        R.append(req_matrix("c15.spectrum", M)); meta[R[-1]] = ("eig", fam, lam)
     # the repository's own test matrix
-    R.append(req_matrix("c15.eigenvalues", [[2.0, -1.0, 0.0], [-1.0, 2.0, -1.0], [0.0, -1.0, 2.0]]))
-    for k in range(160 if thorough else 36):
+    T3 = [[2.0, -1.0, 0.0], [-1.0, 2.0, -1.0], [0.0, -1.0, 2.0]]
+    T3lam = [Fraction(2.0), Fraction(2.0 - math.sqrt(2.0)), Fraction(2.0 + math.sqrt(2.0))]
+    R.append(req_matrix("c15.spectrum", T3)); meta[R[-1]] = ("eig", "repo-test", T3lam)
+    for k in range(160 if thorough else 24):
         M, lam, fam = sym_matrix(rng, k, nmax=5)
         op = "c15.eigensystem" if k % 3 else "c15.eigenvectors"
         R.append(req_matrix(op, M)); meta[R[-1]] = ("sys", fam, lam)
-    R.append(req_matrix("c15.eigensystem", [[2.0, -1.0, 0.0], [-1.0, 2.0, -1.0], [0.0, -1.0, 2.0]]))
-    R.append(req_matrix("c15.eigensystem", [[2.0, 0.0], [0.0, 1.0]]))
+    R.append(req_matrix("c15.eigensystem", T3)); meta[R[-1]] = ("sys", "repo-test", T3lam)
+    R.append(req_matrix("c15.eigensystem", [[2.0, 0.0], [0.0, 1.0]])); meta[R[-1]] = ("sys", "diagonal", [Fraction(2), Fraction(1)])
     return R
 
 
@@ -261,8 +263,9 @@ def oracle_qr(n, M, Q, R):
     dev = max(abs(G[i][j] - int(i == j)) for i in range(n) for j in range(n))
     if dev > K_ORA * n * EPS:
         out.append(("QR_Decomposition: Q is not orthogonal (Q^T Q != 1)", "max dev %.3g" % float(dev)))
-    if any(R[i][j] != 0 for i in range(n) for j in range(i)):
-        out.append(("QR_Decomposition: R is not upper triangular", ""))
+    low = max((abs(Rq[i][j]) for i in range(n) for j in range(i)), default=Fraction(0))
+    if low > K_ORA * n * EPS * nm:
+        out.append(("QR_Decomposition: R is not upper triangular", "max sub-diagonal entry %.3g (max|M| %.3g)" % (float(low), float(nm))))
     return out
 
 
@@ -332,20 +335,25 @@ def compare(rq, impl, model, ctx):
         y = [sum(Hq[i][k] * x[k] for k in range(n)) for i in range(n)]
         nx2 = sum(t * t for t in x)
         sc = Fraction(math.sqrt(float(nx2))) if nx2 else Fraction(1)
-        if any(abs(y[i]) > tol * sc * 4 for i in range(1, n)) or abs(y[0] * y[0] - nx2) > 8 * tol * nx2 or \
-                (x[0] != 0 and (y[0] > 0) == (x[0] > 0)) or (x[0] == 0 and y[0] > 0):
-            out.append(fail("prop", "Householder_Matrix: the first column is not mapped to -sign(x0)*|x|*e1", ""))
+        if any(abs(y[i]) > tol * sc * 4 for i in range(1, n)) or abs(y[0] * y[0] - nx2) > 8 * tol * nx2:
+            out.append(fail("prop", "Householder_Matrix: the first column is not mapped to a multiple +-|x|*e1 of the first unit vector", ""))
+        elif (x[0] != 0 and (y[0] > 0) == (x[0] > 0)) or (x[0] == 0 and y[0] > 0):
+            # a valid reflector with the other sign: the property is not violated, the coded convention is
+            out.append(fail("corr", "Householder_Matrix: sign convention alpha = -sign(x0)*|x| not followed", ""))
         if not out and not all(close(h, m, 1, K_QR) for h, m in zip(H, Hm)):
             out.append(fail("corr", "householder differs from the model", ""))
     elif op == "c15.qr":
         v = [fl(t) for t in ti]
+        kappa = cond2(M)
+        if kappa > 1e12:
+            bump(ctx, "qr.singular_skipped")       # (numerically) singular: outside the property's quantifier
+            return fs
         if len(v) != 2 * n * n or not _finite(v):
             return fs + [fail("prop", "QR_Decomposition: non-finite entry for a non-singular matrix", impl[:200])]
         Q = [v[i * n:(i + 1) * n] for i in range(n)]
         Rm = [v[n * n + i * n:n * n + (i + 1) * n] for i in range(n)]
         for clause, det in oracle_qr(n, M, Q, Rm):
             out.append(fail("prop", clause, det))
-        kappa = cond2(M)
         bump(ctx, "qr.kappa.1e%d" % int(min(16, math.log10(max(kappa, 1.0)))))
         if not out and kappa <= 1e7:
             vm = [fr(t) for t in tm]
@@ -364,7 +372,7 @@ def compare(rq, impl, model, ctx):
             key = "maxerr_eps_kappa.qr"
             if worst > ctx["stats"].get(key, 0):
                 ctx["stats"][key] = round(worst, 3)
-    elif op == "c15.eigenvalues":
+    elif op == "c15.spectrum":
         k = int(ti[0])
         vals = [fl(t) for t in ti[1:1 + k]]
         if not _finite(vals):
@@ -401,7 +409,7 @@ def compare_system(op, rq, n, M, impl, meta, ctx):
     t = tag(impl)
     bump(ctx, "sys.outcome." + t)
     if t == "timeout":
-        return [fail("prop", P + "did not terminate within the time bound (2 s) on a symmetric matrix with separated eigenvalues", "")]
+        return [fail("prop", P + "did not terminate within the time bound (1 s) on a symmetric matrix with separated eigenvalues", "")]
     if t == "err":
         return [fail("prop", P + "stopped with a diagnostic on a symmetric matrix with separated eigenvalues (Inverse of the shifted matrix)", "")]
     if t != "ok":
@@ -445,7 +453,7 @@ def compare_system(op, rq, n, M, impl, meta, ctx):
 
 def _key(op, n, M, meta, model):
     fam = meta[1] if meta else "fixed"
-    if op == "c15.eigenvalues":
+    if op == "c15.spectrum":
         return (op, n, fam, tag(model), tuple(M[i][i] > 0 for i in range(min(n, 3))))
     x0 = M[0][0]
     return (op, n, fam, tag(model), (x0 > 0) - (x0 < 0))
